@@ -1476,4 +1476,362 @@ theorem execute_ok_facts {d : Diagram} {H : Nat → Option Handler} {ext : List 
   rw [hord] at hsrc hdst this
   exact ⟨hsrc, hdst, this⟩
 
+/-! ### liveness: a diagram that can be scheduled does run -/
+
+/-- every handler of the table, on whatever inputs, returns a dict with exactly the declared output ports
+    whose labelled entries carry the declared labels (so `coerceOutputs` succeeds) -/
+def Honest (d : Diagram) (H : Nat → Option Handler) : Prop :=
+  ∀ m ∈ d.modules, ∀ hd, H m.name = some hd → ∀ ins, ∃ raw outs, hd ins = .ret raw ∧
+    sameKeys (keys raw) (keys m.outputs) = true ∧ coerceOutputs raw m.outputs = .ok outs
+
+theorem lookup_of_mem_keys {β : Type} {k : Nat} : ∀ {l : List (Nat × β)}, k ∈ keys l → ∃ v, l.lookup k = some v
+  | [], h => by simp [keys] at h
+  | (k', v') :: r, h => by
+    simp only [List.lookup_cons]
+    by_cases hk : k = k'
+    · subst hk; exact ⟨v', by simp⟩
+    · have hk' : (k == k') = false := by simpa using hk
+      simp only [hk']
+      apply lookup_of_mem_keys
+      simp only [keys, List.map_cons, List.mem_cons] at h
+      rcases h with h | h
+      · exact absurd h hk
+      · exact h
+
+theorem mem_keys_of_lookup {β : Type} {k : Nat} {v : β} {l : List (Nat × β)} (h : l.lookup k = some v) :
+    k ∈ keys l := by
+  have := lookup_mem h
+  exact List.mem_map.mpr ⟨(k, v), this, rfl⟩
+
+def sameDst (a b : Wire) : Bool := a.dstM == b.dstM && a.dstP == b.dstP
+
+theorem pairwise_of_count {l : List Wire}
+    (h : ∀ w ∈ l, (l.filter (fun w' => w'.dstM == w.dstM && w'.dstP == w.dstP)).length ≤ 1) :
+    l.Pairwise (fun a b => sameDst a b = false) := by
+  induction l with
+  | nil => exact List.Pairwise.nil
+  | cons a t ih =>
+    refine List.Pairwise.cons ?_ (ih ?_)
+    · intro b hb
+      cases hs : sameDst a b with
+      | false => rfl
+      | true =>
+        exfalso
+        have h1 := h a (by simp)
+        simp only [List.filter_cons, beq_self_eq_true, Bool.and_self, if_true, List.length_cons] at h1
+        have hb' : b ∈ t.filter (fun w' => w'.dstM == a.dstM && w'.dstP == a.dstP) := by
+          simp only [List.mem_filter]
+          refine ⟨hb, ?_⟩
+          simp only [sameDst, Bool.and_eq_true, beq_iff_eq] at hs
+          simp [hs.1, hs.2]
+        have := List.length_pos_of_mem hb'
+        omega
+    · intro w hw
+      have h1 := h w (List.mem_cons_of_mem _ hw)
+      simp only [List.filter_cons] at h1
+      split at h1
+      · simp only [List.length_cons] at h1; omega
+      · exact h1
+
+theorem deliver_noerr {d : Diagram} {enforce : Bool} {outs : List (Nat × TV)} :
+    ∀ {ws : List Wire} {st : St}, ws.Pairwise (fun a b => sameDst a b = false) →
+      (∀ w ∈ ws, ∃ v, outs.lookup w.srcP = some v ∧ ∃ pt, d.inPort w.dstM w.dstP = some pt ∧ v.fits pt) →
+      (∀ w ∈ ws, hasKey w.dstP (st.minputs w.dstM) = false) →
+      ∃ st', deliver d enforce outs ws st = .ok st'
+  | [], st, _, _, _ => ⟨st, rfl⟩
+  | w :: ws, st, hpw, hout, hfree => by
+    obtain ⟨v, hv, pt, hpt, hfit⟩ := hout w (by simp)
+    have hk := hfree w (by simp)
+    simp only [deliver, hv, hpt]
+    have h1 : (enforce && v.dt != pt.dt) = false := by simp [hfit.1]
+    have h2 : (enforce && decide (v.il < pt.il)) = false := by
+      have := hfit.2
+      have : decide (v.il < pt.il) = false := by simp; omega
+      simp [this]
+    simp only [h1, h2, hk, Bool.false_eq_true, if_false]
+    rw [List.pairwise_cons] at hpw
+    apply deliver_noerr hpw.2 (fun w' hw' => hout w' (List.mem_cons_of_mem _ hw'))
+    intro w' hw'
+    have hold := hfree w' (List.mem_cons_of_mem _ hw')
+    have hne := hpw.1 w' hw'
+    simp only [MInputs.add]
+    split
+    · rename_i heq
+      rw [hasKey_append, hold]
+      simp only [Bool.false_or]
+      simp only [sameDst, Bool.and_eq_false_iff, beq_eq_false_iff_ne] at hne
+      rcases hne with hne | hne
+      · exact absurd heq.symm hne
+      · simp only [hasKey, List.any_cons, List.any_nil, Bool.or_false, beq_eq_false_iff_ne]
+        exact hne
+    · exact hold
+
+/-- the invariant extended by where values come from -/
+structure Inv2 (d : Diagram) (H : Nat → Option Handler) (mi : MInputs) (st : St) : Prop where
+  inv : Inv d H True st
+  base : ∀ n pv, pv ∈ mi n → pv ∈ st.minputs n
+  prov : ∀ n p, hasKey p (st.minputs n) = true → hasKey p (mi n) = true ∨
+    ∃ w ∈ d.wires, w.dstM = n ∧ w.dstP = p ∧ w.srcM ∈ st.order
+
+theorem length_le_one_eq {α : Type} {l : List α} (h : l.length ≤ 1) {a b : α} (ha : a ∈ l) (hb : b ∈ l) :
+    a = b := by
+  match l, h with
+  | [], _ => simp at ha
+  | [x], _ => simp at ha hb; rw [ha, hb]
+  | _ :: _ :: _, h => simp at h
+
+theorem runModule_live {d : Diagram} {H : Nat → Option Handler} {enforce : Bool} {mi : MInputs} {st : St}
+    {m : ModuleSpec} (hwf : d.WF) (hacc : d.Accepted) (hhon : Honest d H)
+    (hhandler : ∀ m ∈ d.modules, m.outputs ≠ [] → (H m.name).isSome = true)
+    (huniq : ∀ w ∈ d.wires, (d.incoming w.dstM w.dstP).length ≤ 1)
+    (hexcl : ∀ w ∈ d.wires, hasKey w.dstP (mi w.dstM) = false)
+    (hinv : Inv2 d H mi st) (hm : m ∈ d.modules) (hnot : m.name ∉ st.order) (hready : ready st m = true) :
+    ∃ st', runModule d H enforce st m = .ok st' ∧ Inv2 d H mi st' ∧ st'.order = st.order ++ [m.name] := by
+  have hfm : d.findMod m.name = some m := findMod_of_mem hwf hm
+  -- the handler part cannot fail
+  have hprod : ∃ calls outs, produce H st m = .ok (calls, outs) := by
+    unfold produce
+    cases hH : H m.name with
+    | none => exact ⟨_, _, rfl⟩
+    | some hd =>
+      obtain ⟨raw, outs, hret, hk, hco⟩ := hhon m hm hd hH (st.minputs m.name)
+      simp only [hret, hk, hco]
+      exact ⟨_, _, rfl⟩
+  obtain ⟨calls, outs, hp⟩ := hprod
+  obtain ⟨hgood, -⟩ := produce_ok hp
+  have hws : ∀ w ∈ d.outgoing m.name, w ∈ d.wires ∧ w.srcM = m.name := by
+    intro w hw; simpa [Diagram.outgoing] using hw
+  -- the delivery part cannot fail
+  have hdel : ∃ st', deliver d enforce outs (d.outgoing m.name)
+      ⟨st.minputs, st.records ++ [⟨m.name, st.minputs m.name, outs⟩], calls⟩ = .ok st' := by
+    apply deliver_noerr
+    · exact (pairwise_of_count (by
+        intro w hw; exact huniq w hw)).sublist List.filter_sublist
+    · intro w hw
+      obtain ⟨hwd, hsrc⟩ := hws w hw
+      obtain ⟨s, t, hs, ht, e1, e2⟩ := hacc w hwd
+      obtain ⟨m2, hm2, hlk2⟩ := outPort_some hs
+      rw [hsrc, hfm] at hm2; cases hm2
+      unfold RecGood at hgood
+      simp only at hgood
+      split at hgood
+      · -- no handler, yet a wire leaves a declared output port: excluded by the pre-flight
+        rename_i hH
+        exfalso
+        have hk := mem_keys_of_lookup hlk2
+        have hne : m.outputs ≠ [] := by intro h0; rw [h0] at hk; simp [keys] at hk
+        have := hhandler m hm hne
+        rw [hH] at this; cases this
+      · obtain ⟨raw, -, -, hco⟩ := hgood
+        obtain ⟨hkeys, hexact, -⟩ := coerceOutputs_ok hco
+        obtain ⟨v, hv⟩ := lookup_of_mem_keys (l := outs) (by rw [hkeys]; exact mem_keys_of_lookup hlk2)
+        obtain ⟨pt', hlk', hex⟩ := hexact w.srcP v hv
+        rw [hlk2] at hlk'; cases hlk'
+        exact ⟨v, hv, t, ht, hex.1.trans e1, by rw [hex.2]; exact e2⟩
+    · intro w hw
+      obtain ⟨hwd, hsrc⟩ := hws w hw
+      cases hk : hasKey w.dstP (st.minputs w.dstM) with
+      | false => rfl
+      | true =>
+        exfalso
+        rcases hinv.prov w.dstM w.dstP hk with h | ⟨w', hw', h1, h2, h3⟩
+        · rw [hexcl w hwd] at h; cases h
+        · have hin : ∀ x ∈ d.wires, x.dstM = w.dstM → x.dstP = w.dstP → x ∈ d.incoming w.dstM w.dstP := by
+            intro x hx a b; simp [Diagram.incoming, hx, a, b]
+          have := length_le_one_eq (huniq w hwd) (hin w' hw' h1 h2) (hin w hwd rfl rfl)
+          rw [this, hsrc] at h3
+          exact hnot h3
+  obtain ⟨st', hd'⟩ := hdel
+  have hrun : runModule d H enforce st m = .ok st' := by
+    unfold runModule; simp only [hp]; exact hd'
+  obtain ⟨hinv', hord⟩ := runModule_inv (G := True) hwf (fun _ => Or.inr hacc) hinv.inv hm hnot hready hrun
+  obtain ⟨-, -, d3, -⟩ := deliver_ok hd'
+  simp only at d3
+  refine ⟨st', hrun, ⟨hinv', ?_, ?_⟩, hord⟩
+  · intro n pv hpv
+    obtain ⟨extra, he, -⟩ := d3 n
+    rw [he]; exact List.mem_append_left _ (hinv.base n pv hpv)
+  · intro n p hk
+    obtain ⟨extra, he, hx⟩ := d3 n
+    rw [he, hasKey_append, Bool.or_eq_true] at hk
+    rcases hk with hk | hk
+    · rcases hinv.prov n p hk with h | ⟨w, hw, h1, h2, h3⟩
+      · exact Or.inl h
+      · exact Or.inr ⟨w, hw, h1, h2, by rw [hord]; exact List.mem_append_left _ h3⟩
+    · obtain ⟨v, hv⟩ := (hasKey_iff _ _).mp hk
+      obtain ⟨w, hw, h1, h2, -⟩ := hx (p, v) hv
+      obtain ⟨hwd, hsrc⟩ := hws w hw
+      exact Or.inr ⟨w, hwd, h1, h2, by rw [hord, hsrc]; simp⟩
+
+/-- the hypotheses under which nothing can go wrong, bundled -/
+structure Schedulable (d : Diagram) (H : Nat → Option Handler) (mi : MInputs) : Prop where
+  wf : d.WF
+  acc : d.Accepted
+  honest : Honest d H
+  pre : preflight d H mi = none
+  excl : ∀ w ∈ d.wires, hasKey w.dstP (mi w.dstM) = false
+  acyclic : ∀ a, ¬ d.Reaches a a
+
+theorem pass_live {d : Diagram} {H : Nat → Option Handler} {enforce : Bool} {mi : MInputs}
+    (hs : Schedulable d H mi) :
+    ∀ {ms : List ModuleSpec} {st : St}, (∀ m ∈ ms, m ∈ d.modules) → Inv2 d H mi st →
+      ∃ st', pass d H enforce ms st = .ok st' ∧ Inv2 d H mi st'
+  | [], st, _, hinv => ⟨st, rfl, hinv⟩
+  | m :: ms, st, hms, hinv => by
+    have hms' : ∀ m' ∈ ms, m' ∈ d.modules := fun m' hm' => hms m' (List.mem_cons_of_mem _ hm')
+    simp only [pass]
+    split
+    · exact pass_live hs hms' hinv
+    · rename_i hnot
+      split
+      · exact pass_live hs hms' hinv
+      · rename_i hready
+        replace hready : ready st m = true := by simpa using hready
+        obtain ⟨-, h2, h3⟩ := preflight_none hs.pre
+        obtain ⟨st1, hrun, hinv1, -⟩ := runModule_live (enforce := enforce) hs.wf hs.acc hs.honest
+          (fun m hm hne => (preflightModule_none (h3 m hm)).1 hne) h2 hs.excl hinv (hms m (by simp)) hnot hready
+        simp only [hrun]
+        exact pass_live hs hms' hinv1
+
+theorem pass_stuck {d : Diagram} {H : Nat → Option Handler} {enforce : Bool} :
+    ∀ {ms : List ModuleSpec} {st st' : St}, pass d H enforce ms st = .ok st' →
+      st'.order.length = st.order.length → ∀ m ∈ ms, m.name ∈ st.order ∨ ready st m = false
+  | [], st, st', _, _ => by simp
+  | m :: ms, st, st', h, hlen => by
+    simp only [pass] at h
+    split at h
+    · rename_i hin
+      intro m' hm'
+      simp only [List.mem_cons] at hm'
+      rcases hm' with rfl | hm'
+      · exact Or.inl hin
+      · exact pass_stuck h hlen m' hm'
+    · split at h
+      · rename_i hnr
+        intro m' hm'
+        simp only [List.mem_cons] at hm'
+        rcases hm' with rfl | hm'
+        · exact Or.inr (by simpa using hnr)
+        · exact pass_stuck h hlen m' hm'
+      · split at h
+        · cases h
+        · rename_i st1 hrun
+          exfalso
+          have h1 := runModule_records hrun
+          have h2 := pass_mono h
+          rw [h1] at h2
+          simp only [List.length_append, List.length_cons, List.length_nil] at h2
+          omega
+
+theorem reaches_trans {d : Diagram} {a b c : Nat} (h1 : d.Reaches a b) (h2 : d.Reaches b c) : d.Reaches a c := by
+  induction h1 with
+  | wire w hw => exact .step w hw h2
+  | step w hw _ ih => exact .step w hw (ih h2)
+
+/-- a non-empty finite set has an element without predecessor in the set, for any transitive irreflexive relation -/
+theorem exists_minimal (T : Nat → Nat → Prop) (htrans : ∀ a b c, T a b → T b c → T a c)
+    (hirr : ∀ a, ¬ T a a) : ∀ (L : List Nat), L ≠ [] → ∃ x ∈ L, ∀ y ∈ L, ¬ T y x
+  | [], h => absurd rfl h
+  | [a], _ => ⟨a, by simp, by intro y hy; simp at hy; subst hy; exact hirr y⟩
+  | a :: b :: L, _ => by
+    obtain ⟨z, hz, hmin⟩ := exists_minimal T htrans hirr (b :: L) (by simp)
+    by_cases haz : T a z
+    · refine ⟨a, by simp, ?_⟩
+      intro y hy
+      rw [List.mem_cons] at hy
+      rcases hy with rfl | hy
+      · exact hirr _
+      · intro hya
+        exact hmin y hy (htrans _ _ _ hya haz)
+    · refine ⟨z, List.mem_cons_of_mem _ hz, ?_⟩
+      intro y hy
+      rw [List.mem_cons] at hy
+      rcases hy with rfl | hy
+      · exact haz
+      · exact hmin y hy
+
+/-- while modules are pending, one of them is ready -/
+theorem exists_ready {d : Diagram} {H : Nat → Option Handler} {mi : MInputs} {st : St}
+    (hs : Schedulable d H mi) (hinv : Inv2 d H mi st) (hlt : st.order.length < d.modules.length) :
+    ∃ m ∈ d.modules, m.name ∉ st.order ∧ ready st m = true := by
+  obtain ⟨h1, -, h3⟩ := preflight_none hs.pre
+  let L := (d.modules.map (·.name)).filter (fun n => decide (n ∉ st.order))
+  have hL : L ≠ [] := by
+    intro hnil
+    have hsub : d.modules.map (·.name) ⊆ st.order := by
+      intro n hn
+      apply Classical.byContradiction
+      intro hno
+      have : n ∈ L := by simp only [L, List.mem_filter]; exact ⟨hn, by simpa using hno⟩
+      rw [hnil] at this; simp at this
+    have := hs.wf.length_le_of_subset hsub
+    simp only [List.length_map] at this
+    omega
+  obtain ⟨x, hx, hmin⟩ := exists_minimal d.Reaches (fun _ _ _ => reaches_trans) hs.acyclic L hL
+  simp only [L, List.mem_filter, List.mem_map, decide_eq_true_eq] at hx
+  obtain ⟨⟨m, hm, hmx⟩, hxo⟩ := hx
+  subst hmx
+  refine ⟨m, hm, hxo, ready_iff.mpr ?_⟩
+  intro pp hpp
+  rcases (preflightModule_none (h3 m hm)).2 pp hpp with hinc | hk
+  · obtain ⟨w, hw⟩ := List.exists_mem_of_ne_nil _ hinc
+    simp only [Diagram.incoming, List.mem_filter, Bool.and_eq_true, beq_iff_eq] at hw
+    obtain ⟨hwd, hdm, hdp⟩ := hw
+    by_cases hsrc : w.srcM ∈ st.order
+    · obtain ⟨r, -, -, -, v, -, hmem⟩ := hinv.inv.flowed w hwd hsrc
+      rw [hdm, hdp] at hmem
+      exact (hasKey_iff _ _).mpr ⟨v, hmem⟩
+    · exfalso
+      have hsome := h1 w hwd
+      cases hf : d.findMod w.srcM with
+      | none => simp [hf] at hsome
+      | some m' =>
+        obtain ⟨hm', hmn'⟩ := findMod_some hf
+        have hinL : w.srcM ∈ L := by
+          simp only [L, List.mem_filter, List.mem_map, decide_eq_true_eq]
+          exact ⟨⟨m', hm', hmn'⟩, hsrc⟩
+        have hr : d.Reaches w.srcM m.name := by
+          have := Diagram.Reaches.wire (d := d) w hwd
+          rw [hdm] at this; exact this
+        exact hmin _ hinL hr
+  · obtain ⟨v, hv⟩ := (hasKey_iff _ _).mp hk
+    exact (hasKey_iff _ _).mpr ⟨v, hinv.base _ _ hv⟩
+
+theorem loop_live {d : Diagram} {H : Nat → Option Handler} {enforce : Bool} {mi : MInputs}
+    (hs : Schedulable d H mi) :
+    ∀ {fuel : Nat} {st : St}, d.modules.length ≤ st.order.length + fuel → Inv2 d H mi st →
+      ∃ st', loop d H enforce fuel st = .ok st'
+  | 0, st, hf, _ => by
+    simp only [loop]
+    split
+    · omega
+    · exact ⟨st, rfl⟩
+  | fuel + 1, st, hf, hinv => by
+    simp only [loop]
+    split
+    · rename_i hlt
+      obtain ⟨st1, hp, hinv1⟩ := pass_live (enforce := enforce) hs (fun _ hm => hm) hinv
+      simp only [hp]
+      have hmono := pass_mono hp
+      split
+      · rename_i heq
+        exfalso
+        obtain ⟨m, hm, hno, hr⟩ := exists_ready hs hinv hlt
+        rcases pass_stuck hp heq m hm with h | h
+        · exact hno h
+        · rw [hr] at h; cases h
+      · exact loop_live hs (by omega) hinv1
+    · exact ⟨st, rfl⟩
+
+theorem execute_live {d : Diagram} {H : Nat → Option Handler} {ext : List (Nat × List (Nat × Val))}
+    {enforce : Bool} {mi : MInputs} (hext : extPhase d ext (fun _ => []) = .ok mi) (hs : Schedulable d H mi) :
+    ∃ recs, (execute d H ext enforce).out = .ok recs := by
+  have hinv : Inv2 d H mi ⟨mi, [], []⟩ :=
+    ⟨inv_init (extPhase_ok hext (portsFit_empty d True)), fun _ _ h => h, fun _ _ h => Or.inl h⟩
+  obtain ⟨st', hl⟩ := loop_live (enforce := enforce) (fuel := d.modules.length) hs (st := ⟨mi, [], []⟩)
+    (by simp [St.order]) hinv
+  unfold execute
+  simp only [hext, hs.pre, hl]
+  exact ⟨_, rfl⟩
+
 end Operon.Wiring
